@@ -9,7 +9,7 @@ class OptixTransVendor(AbstractVendor):
     NAME = "optixtrans"
 
     def match(self) -> list[str]:
-        return ["OptiXtrans"]
+        return ["Huawei.OptiXtrans"]
 
     @property
     def reverse(self) -> str:
